@@ -145,6 +145,15 @@ CHECKS = {
         "the scripts.",
         "DESIGN.md §5 C09",
     ),
+    "C12": (
+        "Coq proof (call vs execute of the retry loop by a simulation that forgets the captured timeline, by induction over the loop; call vs execute through the policy wrapper; Policy without breaker = Retry) tied by in-Coq full-trace correspondence of every entry point (20: Retry/Policy/RetryPolicy x call/execute, contexts, @retry; sync and async) with the one model, plus pairwise comparison of the implementation's own traces",
+        "Theorems C12_call_execute, C12_iter, C12_settle_call_execute, C12_policy_call_execute, C12_policy_without_breaker for all "
+        "configurations/environments of the Gallina models. The sync/async twins and the sugar have no model of their own: they "
+        "are tied by correspondence (each entry point against the same model, full trace) and by the pairwise oracle only. Two "
+        "known findings (nested CircuitOpenError; raising strategy/sleeper on the result path) are kept, the first with a "
+        "_refuted theorem, both replayed on every run.",
+        RUNNER_NOTE, "DESIGN.md §5 C12",
+    ),
 }
 
 NOT_YET = "check not built yet at this commit (work in progress; see DESIGN.md §10 build order)"
